@@ -16,6 +16,8 @@ func init() {
 			{"ONE-TO-ONE-GUARD", ruleOneToOneGuard},
 			{"ONE-TO-ONE-SCAN", ruleOneToOneScan},
 			{"ORDER-DIRECTION-CARRIED", func(c *eng.Ctx) { ruleOrderDirectionCarried(c, "ORDER-DIRECTION-CARRIED") }},
+			{"INDEX-PAIRING", ruleIndexPairing},
+			{"FILTER-REAPPLY", ruleFilterReapply},
 			{"JOIN-END", ruleJoinEnd},
 			{"JOIN-INVERT-GUARDS", ruleJoinInvertGuards},
 			{"SEEN-SET", func(c *eng.Ctx) { ruleSeenSet(c, "SEEN-SET", []string{"internal/planner/..."}, 1) }},
@@ -24,7 +26,7 @@ func init() {
 			}},
 		},
 		Meta: eng.PropMeta{
-			Explanation: "Decides only the third clause of the property ('local writes never leave a one-to-one link held by two documents'): (ONE-TO-ONE-GUARD) in collection.save every field-level AddDelta is preceded, in the same loop iteration, by validateOneToOneLinkDoesntAlreadyExist whose error edge returns; (ONE-TO-ONE-SCAN) inside that guard the only ways to skip the 'already linked' scan are decisions over the value being nil and the kinds of the two relation fields (schema shape) — no other input (indexes, options, caches) can exempt a write — and a positive scan result yields an error. Also decided, as necessary conditions of join symmetry: (JOIN-END) invertibleTypeJoin reports end of iteration only on an error or when its first-side source is exhausted — a first-side document with nothing to yield is skipped; (SEEN-SET) a slice field used as a seen-set is tested exhaustively before a value is appended; (ORDER-DIRECTION-CARRIED) an order condition rebuilt for the inverted side keeps its direction; (RECURSION-ARGS) as in C07. (JOIN-INVERT-GUARDS) the planner inverts a join on a relation filter only after evaluating that filter on a parent without related document (a positive result keeps the direction), and the inversion clears the parent scan's secondary index because the parent is then fetched by docID.",
+			Explanation: "Decides only the third clause of the property ('local writes never leave a one-to-one link held by two documents'): (ONE-TO-ONE-GUARD) in collection.save every field-level AddDelta is preceded, in the same loop iteration, by validateOneToOneLinkDoesntAlreadyExist whose error edge returns; (ONE-TO-ONE-SCAN) inside that guard the only ways to skip the 'already linked' scan are decisions over the value being nil and the kinds of the two relation fields (schema shape) — no other input (indexes, options, caches) can exempt a write — and a positive scan result yields an error. Also decided, as necessary conditions of join symmetry: (JOIN-END) invertibleTypeJoin reports end of iteration only on an error or when its first-side source is exhausted — a first-side document with nothing to yield is skipped; (SEEN-SET) a slice field used as a seen-set is tested exhaustively before a value is appended; (ORDER-DIRECTION-CARRIED) an order condition rebuilt for the inverted side keeps its direction; (RECURSION-ARGS) as in C07. (JOIN-INVERT-GUARDS) the planner inverts a join on a relation filter only after evaluating that filter on a parent without related document (a positive result keeps the direction), and the inversion clears the parent scan's secondary index because the parent is then fetched by docID. Shared with C07 because relations are read through them: (INDEX-PAIRING) every mutation route maintains the secondary indexes before it proceeds — the one-to-one link check reads the foreign-key index; (FILTER-REAPPLY) the filtered fetcher wraps every document source, including the deleted-documents source — a join fetches a parent's children with a filter on the foreign key.",
 			NotDecided:  "equality of the two directions of a relation over all data, join inversion through an index beyond the necessary conditions above, batching of primary lookups, filters/ordering/aggregates through relations: these are relations between two query results over all data and plans and are not decidable by a structural rule here",
 		},
 	})
